@@ -202,6 +202,10 @@ def run():
                     dis.append(dict(case=spec, diff=dict(what="constructor with random_state=None: one numpy draw, then both seeds", real=str(tr2[:4]), model="[npdraw, pyseed, npseed, …]")))
             except scen.StepTimeout:
                 D.SKIPPED_RAISES.append(f"{tag}: watchdog (C08)")
+            except C.Infra:
+                raise
+            except Exception as e:  # noqa - a run the library itself aborts (e.g. no feasible candidate row) is no statement about C07
+                D.SKIPPED_RAISES.append(f"{tag}: {type(e).__name__} (random_state=None pair)")
             # nth_process offset
             for nth in (0, 3):
                 try:
